@@ -1710,6 +1710,16 @@ def no_send_retry(R, RID, module='session'):
         g = R.cfg(fi.qual, cx.recv, fault='oserror')
         sends = [n for n in g.live_nodes() for c in n.calls
                  if any(t.kind == 'ext' and t.name == 'socket.sendall' for t in R.types.call_targets(c, g.ctx))]
+        # a write on a socket with a timeout can give up part-way (sendall does not say how far it got) while the
+        # session stays usable: the next frame is appended to half of this one
+        for n in g.live_nodes():
+            for c in n.calls:
+                if any(t.kind == 'ext' and t.name == 'socket.settimeout' for t in R.types.call_targets(c, g.ctx)) and c.args \
+                        and not (isinstance(c.args[0], ast.Constant) and c.args[0].value is None):
+                    R.ob(RID, 'writes are made on a blocking socket (%s)' % fi.qual, False,
+                         '%s sets a socket timeout (`%s`) around its sendall(): a write that times out after part of the frame '
+                         'was accepted leaves half a frame on the wire, and the connection is kept' % (fi.qual, U(c)[:50]),
+                         func=fi, node=c, construct='timeout on the write path in %s' % fi.qual)
         for n in sends:
             n_sites += 1
             after = g.reachable([m for (m, l) in n.succ if l.startswith('exc:')])
